@@ -1516,6 +1516,8 @@ func runC07(c *Check) {
 	ruleCacheSaverWritesWhatChanged(c, p, "C07-R10")
 	ruleWakeChannelBuffered(c, p, "C07-R11", "DAIncluderLoop")
 	c.MinInstances("C07-R11", 1)
+	ruleSightingWakesIncluder(c, p, "C07-R12")
+	c.MinInstances("C07-R12", 2)
 }
 
 // ruleCacheSaverWritesWhatChanged (C07-R10): the DA-inclusion marks live in memory and reach the
